@@ -35,6 +35,15 @@ add("C20", "model_checking",
     "Trusted: multiset models in internal/poolx. 'stored' is read as 'add returned nil'. Retention of aggregates is asserted as participant coverage (the pool may drop redundant subsets).",
     "explicit-state model checking of the implementation (BFS, lock-step multiset model)", "DESIGN.md 3/C20")
 
+add("C06", "exploration",
+    "Bounded-exhaustive enumeration: (1) real SHA-256, every list size 0..600 (quick) / 0..2100 (thorough) x rounds {0,1,2,3,10,90,255} x 3 seeds; (2) an OWNED hash installed through the hashing.Hash/GetHashFn seams: for sizes <= 10 (1 round) and <= 6 (2 rounds) EVERY pivot x EVERY position-bit pattern, i.e. every behaviour any seed can induce; for sizes 1..40, 250..265, 505..520 every pivot x every single-set/single-clear bit pattern (8- and 256-position refresh boundaries, both mirror segments). Per case PermuteIndex/UnpermuteIndex at every position, ShuffleList, UnshuffleList and the round trip are compared with the spec's per-index function.",
+    "Trusted: verbatim transliteration of compute_shuffled_index (internal/shufx); crypto/sha256. Not every 2^256 seed: the owned hash covers all seed-induced behaviours only on the small sizes.",
+    "bounded exhaustive enumeration of inputs (all pivots x all bit patterns via an owned hash) against the spec function", "DESIGN.md 3/C06")
+add("C19", "exploration",
+    "Bounded-exhaustive enumeration against exact 128-bit arithmetic: IntegerSquareroot on every n < 2^30 (quick) / 2^32 (thorough) plus both edges of every step of the floor function (all k < 2^32 in the thorough tier) and neighbourhoods of 2^64-1 and every 2^j; power-of-two helpers on dense ranges and all 2^j +-3; time/slot/epoch/churn/committee-count/slot-span helpers on full products over a 36-value structured set x parameter sets (exact value when representable, error result otherwise, never a wrapped value); VerifyMerkleBranch on every index of every full tree up to depth 6/9 with every single corruption, plus the depth-33 deposit shape.",
+    "Trusted: math/bits 128-bit arithmetic, crypto/sha256. Structured exhaustive sub-domains, not all 2^64 points per argument.",
+    "bounded exhaustive enumeration of inputs against exact reference arithmetic", "DESIGN.md 3/C19")
+
 claimed = {c["property_id"] for c in checks}
 na = [{"property_id": "C%02d" % i, "reason": "check not built yet (work in progress; same technique planned, see DESIGN.md section 3)"}
       for i in range(1, 21) if "C%02d" % i not in claimed]
@@ -46,7 +55,9 @@ m = {"version": 1,
                "source_commits": [], "add_only": True},
      "engines": [
          {"name": "seqx", "path": "internal/seqx", "serves_properties": ["C09", "C10", "C11", "C16", "C20"],
-          "kind_free_text": "explicit-state BFS over operation sequences on the real object, replay-from-root, exact state merging on (model state, full private-state dump)"}],
+          "kind_free_text": "explicit-state BFS over operation sequences on the real object, replay-from-root, exact state merging on (model state, full private-state dump)"},
+         {"name": "enumx", "path": "internal/numx, internal/shufx", "serves_properties": ["C06", "C19"],
+          "kind_free_text": "bounded exhaustive enumeration of input shapes/values against reference implementations"}],
      "checks": checks,
      "not_applicable": na,
      "notes": "See DESIGN.md. Known findings and fixed defects: known_findings.json."}
